@@ -237,24 +237,24 @@ def C20(run):
 PROPS = {k: v for k, v in globals().items() if len(k) == 3 and k[0] == 'C' and k[1:].isdigit()}
 
 TECHNIQUE = {
-    'C01': 'contract-based deductive verification of the kernels (own ast->VC generator, z3); bounded dense-matrix stand-in for the class layer',
-    'C02': 'deductive contracts on clifford_rotate and rotate_by (incl. invariant-preserving state rotation) (z3); bounded dense-matrix stand-in for masks and all receivers',
-    'C03': 'deductive contracts on pauli_combine/pauli_transform (z3); bounded dense-matrix stand-in for homomorphism/embedding',
-    'C04': 'bounded enumeration of the Clifford group (N=1 exhaustive); deductive functional contract of compose',
-    'C05': 'deductive: tableau invariant preserved by measure/project/projection_trace/postselection kernels, state rotation, to_state, copy, measure/postselect glue (z3, unbounded); bounded random histories for map transforms, gates, circuits',
-    'C06': 'deductive per-observable step contract of stabilizer_measure (Born/projection in algebraic form, both coins) (z3); bounded dense-matrix oracle for the identification with matrices',
-    'C07': 'deductive contracts on stabilizer_expect, stabilizer_projection_trace, expect(list/state) (z3); bounded dense trace oracle',
-    'C08': 'bounded dense von Neumann entropy oracle',
-    'C09': 'bounded program enumeration against gate-by-gate application; deductive contracts for a full-register gate (generator / map) being exactly the rotation / map transformation',
-    'C10': 'bounded program enumeration, forward/backward round trips; deductive: backward of a generator gate is the rotation by minus the generator, double-rotation lemma',
-    'C11': 'exhaustive check of the finite gate tables against textbook images',
-    'C12': 'deductive contracts on map_to_state/state_to_map/to_state/to_map/stabilizer_project (z3); bounded dense oracle for constructors',
-    'C13': 'bounded conformance testing torch vs numpy port',
+    'C01': 'contract-based deductive verification (own ast->VC generator over the real source, z3): acq / ipow / p0 / ps0 / acq_mat / batch_dot and the class-layer products against oracle spec functions built from the 2x2 matrices, associativity / square lemmas by induction; bounded dense-matrix stand-in as cross-check',
+    'C02': 'deductive contracts (z3): clifford_rotate, rotate_by (unmasked, masked, on states with the tableau invariant, on single Paulis), clifford_rotation_map, double-rotation lemma; bounded dense-matrix stand-in for U^dagger P U, all masks and receivers',
+    'C03': 'deductive contracts (z3): pauli_combine / pauli_transform as ordered products, transform_by (unmasked, masked, on states), homomorphism lemma chain (valid maps preserve commutation and Hermiticity); bounded dense-matrix stand-in',
+    'C04': 'deductive contracts (z3): z2inv by the Gauss-Jordan augmented-matrix invariant, CliffordMap.inverse (inverse o map = identity, strings and phases), compose as functional contract, identity_map; bounded: two-sidedness, associativity on maps, N=1 exhaustive, sparse maps up to N=12',
+    'C05': 'deductive (z3, all N): tableau invariant preserved by the measure / project / projection_trace / postselection kernels, by state rotation and map transformation (global and on any qubit subset), by every kind of deterministic gate, by to_state / copy / measure / postselect glue; bounded random histories for layer / circuit traversal',
+    'C06': 'deductive per-observable step contract of stabilizer_measure (Born rule / projection postulate in algebraic form, both coins) and measure glue (z3); bounded dense-matrix oracle for the identification with matrices',
+    'C07': 'deductive contracts on stabilizer_expect, stabilizer_projection_trace, expect(list / state), get_prob as side-effect-free query (z3); bounded dense trace oracle',
+    'C08': 'deductive contracts (z3): z2rank = GF(2) rank (abstract rank + three assumed classical lemmas, echelon invariant), stabilizer_entropy / StabilizerState.entropy = the textbook rank formulas; bounded dense von Neumann entropy oracle for the bridge',
+    'C09': 'deductive contracts (z3): every deterministic gate (generator / map, full register / any qubit tuple) is exactly the rotation / map transformation on its qubits and leaves all other columns untouched, mask(), independent_from; bounded exhaustive layer-packing scan and program enumeration against gate-by-gate application',
+    'C10': 'deductive contracts (z3): backward of a generator gate = rotation by minus the generator (+ double-rotation lemma), backward of a map gate = transformation by the GF(2)-inverse table, compile of a generator gate; bounded forward/backward round trips incl. histories',
+    'C11': 'exhaustive check of the finite gate tables against textbook images (+ construction histories); deductive placement: a map gate acts as its table on its qubits for every register size',
+    'C12': 'deductive contracts (z3): map_to_state / state_to_map / to_state / to_map / stabilizer_project, duality (to_state turns the canonical commutation relations into the tableau structure), identity_map, zero / maximally mixed state; bounded dense oracle for the other constructors',
+    'C13': 'bounded conformance testing torch vs numpy port (tensor code is outside the fragment of the VC generator)',
     'C14': 'deductive contracts on stabilizer_measure, stabilizer_postselection, postselect, MeasureLayer.forward (z3); bounded dense trajectory oracle for circuits',
-    'C15': 'bounded dense-matrix oracle over random expression trees',
-    'C16': 'deductive validity of random_pair for every RNG draw (z3); bounded validity checks and chi-square counting on finite groups',
-    'C17': 'deductive frame conditions (modifies clauses) of all kernels under contract (z3); bounded snapshot checks for the class layer',
-    'C18': 'deductive contracts on front/pauli_is_onsite/pauli_diagonalize1 (z3); bounded exhaustive diagonalisation check, SBRG',
-    'C19': 'deductive contract on pauli_combine; bounded membership/expansion/shadow checks',
-    'C20': 'deductive contracts on pauli_tokenize, unit multiplication, negation (z3); exhaustive parse/print round trips per N',
+    'C15': 'deductive contracts (z3, complex numbers abstract): products of polynomials / Pauli @ monomial, negation, number multiples, copy; bounded dense-matrix oracle over random expression trees for sums, reduce, trace',
+    'C16': 'deductive validity for every RNG draw (z3): random_pair, random_pauli / random_pauli_map, pauli_diagonalize2 (the step random_clifford rests on); bounded validity checks and chi-square counting on finite groups',
+    'C17': 'deductive frame conditions (modifies clauses, freshness of results) of every function under contract (z3); bounded snapshot checks for copies and queries of the class layer',
+    'C18': 'deductive contracts (z3): front / pauli_is_onsite / pauli_diagonalize1 / pauli_diagonalize2 / condense / clifford_rotation_gate (gate of G = rotation by G); bounded exhaustive diagonalisation check, SBRG',
+    'C19': 'deductive contract on pauli_combine (sampled rows are ordered products); bounded membership / expansion / shadow checks',
+    'C20': 'deductive contracts on pauli_tokenize, unit multiplication, negation, integer selection (z3); exhaustive parse / print round trips per N',
 }
